@@ -395,7 +395,14 @@ def o_term(rec, world, hist=None):
             out.append(V("event-after-exit", f"plan code ran after run returned: {late[:3]}", **tags))
             return out
         exits = [ev for ev in rec.events if ev[3] == "thread-exit"]
-        if any(ev[0] > ix.run_exit for ev in exits):
+        # A thread that was launched but had not begun to run when an interrupt ended Thread.start() (is_alive() is
+        # still False, join() would raise) cannot be waited for with the public threading API; what C17 asks of it is
+        # that it exits and starts no call - it finds the stop flag set. Everything that had begun to run when run
+        # returned must have exited by then.
+        booted = {ev[4] for ev in rec.events if ev[3] == "thread-boot" and ev[0] < ix.run_exit}
+        late = [ev for ev in exits if ev[0] > ix.run_exit
+                and not (tags.get("inside_thread_start_after_spawn") and ev[4] not in booted)]
+        if late:
             out.append(V("thread-exit-after-return", "a thread created by run exited only after run returned", **tags))
     if rec.rt.inflight != 0 or rec.rt.inflight_mtime != 0:
         out.append(V("inflight-at-exit", f"{rec.rt.inflight} call(s) still executing when run returned", **tags))
